@@ -696,3 +696,51 @@ def measures_in(ctx, origins, depth=0, seen=None):
             for op in rv["ops"]:
                 out |= measures_in(ctx, ctx.org.operand(op), depth + 1, seen)
     return out
+
+
+def r_retain(F, R, cat=None):
+    """C18: clear() must not replace a storage whose capacity heap_size reports (the reported
+    capacity would shrink): reported fields may only be cleared in place"""
+    cat = cat or Catalogue(F)
+    n = 0
+    for adt in cat.local_types():
+        reported = set()
+        for hb in cat.methods(adt, "heap_size"):
+            if unconditional_diverge(hb):
+                continue
+            hctx, heffs = cat.effects(hb)
+            for e in heffs:
+                if e.cls == "heap_report":
+                    if e.tag == ("Codec", "heap_size") and not codec_reports_anything(cat):
+                        continue  # no Codec impl in the crate reports any capacity
+                    for (f, rest) in self_field_targets(e, hctx):
+                        if f:
+                            reported.add(f)
+        if not reported:
+            continue
+        for b in clear_methods(cat, adt):
+            ctx, effs = cat.effects(b)
+            if forwarding_to_own(b, effs, ctx, "clear"):
+                continue
+            n += 1
+            R.saw(b)
+            bad = []
+            for e in effs:
+                if e.cls != "assign":
+                    continue
+                for (f, rest) in self_field_targets(e, ctx):
+                    if (f is None and rest == ()) or (f in reported and rest == ()):
+                        st = store_type(e)
+                        if f is None or is_storage_type(st, F):
+                            bad.append("%s replaced at line %s" % (f or "*self", e.line))
+            R.check("R-RETAIN", b.label(), not bad, construct="clear keeps the allocations heap_size reports",
+                    where=b.where(), detail="; ".join(bad) or "reported fields %s are cleared in place" % sorted(reported))
+    R.floor("R-RETAIN", "clear bodies of types that report capacity", n, 8)
+
+
+def codec_reports_anything(cat):
+    for b in cat.F.methods_of_trait("Codec", "heap_size"):
+        ctx, effs = cat.effects(b)
+        if any(e.cls in ("callback", "heap_report") for e in effs):
+            return True
+    return False
